@@ -549,3 +549,150 @@ def listing_ops(asm):
 def poll_model_line(fns, entry, ks):
     return "pollmodel (entry %s) (fns %s) (ks %s)" % (
         entry, " ".join("(" + " ".join([n] + ops) + ")" for n, ops in sorted(fns.items())), " ".join(str(k) for k in ks))
+
+
+# ---------------------------------------------------------------------------
+# C17: programs that spawn cores
+# ---------------------------------------------------------------------------
+
+def hs_str(s):
+    return '"' + s.replace("\\", "\\\\").replace('"', '\\"') + '"'
+
+
+def disp(v):
+    """Display() of a value as println shows it."""
+    k = v[0]
+    if k == "int":
+        return str(v[1])
+    if k == "str":
+        return v[1]
+    if k == "bool":
+        return "true" if v[1] else "false"
+    if k == "list":
+        return "[" + ", ".join(disp(e) for e in v[1]) + "]"
+    raise ValueError(v)
+
+
+def lit(v):
+    k = v[0]
+    if k == "int":
+        return str(v[1]) if v[1] >= 0 else f"(0 - {-v[1]})"
+    if k == "str":
+        return hs_str(v[1])
+    if k == "bool":
+        return "true" if v[1] else "false"
+    if k == "list":
+        return "[" + ", ".join(lit(e) for e in v[1]) + "]"
+    raise ValueError(v)
+
+
+def gen_spawn_program(rng, max_workers=8, fail=False):
+    """Returns dict(src, acts (per core program, for the model), lines (expected multiset as a sorted list),
+    ncores, fail, slots (expected exact globals), incs (number of counter increments))."""
+    n = rng.randrange(1, max_workers + 1)          # spawned cores
+    parent = {}
+    depth = {0: 0}
+    for k in range(1, n + 1):
+        cands = [p for p in range(0, k) if depth[p] < 3]
+        p = 0 if rng.random() < 0.6 else rng.choice(cands)
+        parent[k] = p
+        depth[k] = depth[p] + 1
+    children = {k: [c for c in range(1, n + 1) if parent[c] == k] for k in range(0, n + 1)}
+    args = {k: (I(rng.randrange(-50, 1000)), S(rng.choice(["a", "bc", "x y", "é", "q-1", "Z"])),
+                Lst([I(rng.randrange(0, 9)) for _ in range(rng.randrange(0, 4))])) for k in range(1, n + 1)}
+    failing = rng.randrange(0, n + 1) if fail else None
+    body, acts, lines = {}, {}, []
+    incs = 0
+    slots = {}
+    for k in range(0, n + 1):
+        name = "m" if k == 0 else f"c{k}"
+        st, ac = [], []
+        if k > 0:
+            a, s, l = args[k]
+            st.append(f'println("{name} args", a, s, l);')
+            line = f"{name} args {disp(a)} {disp(s)} {disp(l)}"
+            ac.append(("p", line))
+            lines.append(line)
+            st.append("l.push(99);")
+            st.append(f'println("{name} own", l.len());')
+            line = f"{name} own {len(l[1]) + 1}"
+            ac.append(("p", line))
+            lines.append(line)
+        items = [("spawn", c) for c in children[k]]
+        for _ in range(rng.randrange(1, 5)):
+            items.append((rng.choice(["loop", "inc", "slot", "read", "print"]), None))
+        rng.shuffle(items)
+        if failing == k:
+            items.insert(rng.randrange(0, len(items) + 1), ("fail", None))
+        elif fail and rng.random() < 0.5:
+            items.append(("long", None))
+        for kind, c in items:
+            if kind == "spawn":
+                a, s, l = args[c]
+                st.append(f"let lst{c} = {lit(l)};")
+                st.append(f"spawn w{c}({lit(a)}, {lit(s)}, lst{c});")
+                ac.append(("s", c))
+                st.append(f'println("{name} kept", lst{c});')
+                line = f"{name} kept {disp(l)}"
+                ac.append(("p", line))
+                lines.append(line)
+            elif kind == "loop":
+                m = rng.randrange(2, 25)
+                st.append(f'for i in 0..{m} {{ println("{name} i", i); }}')
+                for i in range(m):
+                    line = f"{name} i {i}"
+                    ac.append(("p", line))
+                    lines.append(line)
+            elif kind == "long":
+                st.append(f'for i in 0..400 {{ println("{name} long", i); }}')
+                for i in range(400):
+                    line = f"{name} long {i}"
+                    ac.append(("p", line))
+                    lines.append(line)
+            elif kind == "inc":
+                m = rng.randrange(1, 12)
+                st.append(f"for i in 0..{m} {{ counter = counter + 1; }}")
+                for _ in range(m):
+                    ac += ["r", "w"]
+                incs += m
+            elif kind == "slot":
+                v = rng.randrange(1, 1000)
+                st.append(f"slot{k} = {v};")
+                ac.append("w")
+                slots[f"slot{k}"] = I(v)
+            elif kind == "read":
+                st.append(f'let t{len(st)} = counter + slot{k};')
+                ac += ["r", "r"]
+            elif kind == "print":
+                t = rng.choice(["x", "hello world", "1,2", "ü"])
+                st.append(f'println("{name} says", {hs_str(t)});')
+                line = f"{name} says {t}"
+                ac.append(("p", line))
+                lines.append(line)
+            elif kind == "fail":
+                st.append(f'throw("boom {k}");')
+                ac.append("f")
+        body[k] = st
+        acts[k] = ac
+    src = ["let counter = 0;"] + [f"let slot{k} = 0;" for k in range(0, n + 1)]
+    for k in range(1, n + 1):
+        src.append(f"fn w{k}(a: int, s: str, l: [int]) {{ " + " ".join(body[k]) + " }")
+    src.append("fn main() { " + " ".join(body[0]) + " }")
+    for k in range(0, n + 1):
+        slots.setdefault(f"slot{k}", I(0))
+    return {"src": "\n".join(src) + "\n", "acts": [acts[k] for k in range(0, n + 1)], "lines": sorted(lines),
+            "ncores": n + 1, "fail": fail, "failing": failing, "slots": slots, "incs": incs}
+
+
+def spawn_line(src, runs, procs, yield_):
+    return "(spawn (runs %d) (procs %s) (yield %s) (main %s))" % (
+        runs, " ".join(str(p) for p in procs), "true" if yield_ else "false", xhex(src))
+
+
+def spawn_model_line(acts, seeds):
+    def a(x):
+        if isinstance(x, tuple):
+            return f"(p {xhex(x[1])})" if x[0] == "p" else f"(s {x[1]})"
+        return x
+    return "spawnmodel (seeds %s) (progs %s)" % (
+        " ".join(str(s) for s in seeds), " ".join("(" + " ".join(a(x) for x in prog) + ")" for prog in acts))
